@@ -156,9 +156,7 @@ let rec last l d =
 
 (** val rev : 'a1 list -> 'a1 list **)
 
-let rec rev = function
-| [] -> []
-| x :: l' -> app (rev l') (x :: [])
+let rec rev = Stdlib.List.rev
 
 (** val rev_append : 'a1 list -> 'a1 list -> 'a1 list **)
 
@@ -4204,10 +4202,10 @@ let render_tr o2 fns =
        | Some er -> Ret (([], (Some er)), tl0)
        | None ->
          bind (serialize_tr r) (fun rs_ ->
-           let (s0, tr) = rs_ in
+           let (s0, tr0) = rs_ in
            let (rt, g0) = s0 in
            (match g0 with
-            | Some er -> Ret (([], (Some er)), (app tl0 tr))
+            | Some er -> Ret (([], (Some er)), (app tl0 tr0))
             | None ->
               let lf0 =
                 wrap_if ((&&) (negb (no_wrap_op op)) (negb (is_simple l))) lf
@@ -4218,11 +4216,11 @@ let render_tr o2 fns =
               (match fns op with
                | Some fn ->
                  bind (fn lf0 rt0) (fun x -> Ret (x,
-                   (app tl0 (app tr (((op, lf0), rt0) :: [])))))
+                   (app tl0 (app tr0 (((op, lf0), rt0) :: [])))))
                | None ->
                  Ret (([], (Some
                    ('u'::('n'::('a'::('b'::('l'::('e'::(' '::('t'::('o'::(' '::('r'::('e'::('n'::('d'::('e'::('r'::(' '::('o'::('p'::('e'::('r'::('a'::('t'::('o'::('r'::[]))))))))))))))))))))))))))),
-                   (app tl0 tr)))))))
+                   (app tl0 tr0)))))))
   and serialize_tr = function
   | VNil -> Ret (([], None), [])
   | VInt z0 -> Ret (((z_to_string z0), None), [])
@@ -4236,16 +4234,16 @@ let render_tr o2 fns =
   | VCol c -> Ret ((ser_column c), [])
   | VExp e -> render_tr0 e
   | VList l ->
-    let rec each l0 acc tr =
+    let rec each l0 acc tr0 =
       match l0 with
-      | [] -> Ret (((join (','::(' '::[])) (rev acc)), None), tr)
+      | [] -> Ret (((join (','::(' '::[])) (rev acc)), None), tr0)
       | x :: rest0 ->
         bind (render_tr0 x) (fun s ->
           let (s0, t) = s in
           let (s', g) = s0 in
           (match g with
-           | Some er -> Ret ((s', (Some er)), (app tr t))
-           | None -> each rest0 (s' :: acc) (app tr t)))
+           | Some er -> Ret ((s', (Some er)), (app tr0 t))
+           | None -> each rest0 (s' :: acc) (app tr0 t)))
     in each l [] []
   | VBound (mn, mx, incl) ->
     bind (serialize_tr mn) (fun a ->
@@ -15530,3 +15528,429 @@ and sk_v v v' =
     (match v' with
      | VBound (a', b', i') -> (&&) ((&&) (sk_v a a') (sk_v b b')) (eqb i i')
      | _ -> false)
+
+(** val nat_digits : z -> bytes0 **)
+
+let nat_digits z0 =
+  str
+    (z_digits (S (S (S (S (S (S (S (S (S (S (S (S (S (S (S (S (S (S (S (S (S
+      (S (S (S (S (S (S (S (S (S O)))))))))))))))))))))))))))))) z0 [])
+
+(** val int_toks : z -> tok list **)
+
+let int_toks z0 =
+  if Z.ltb z0 Z0
+  then (TOp (str ('-'::[]))) :: ((TNum (nat_digits (Z.opp z0))) :: [])
+  else (TNum (nat_digits z0)) :: []
+
+(** val int_ast : z -> ast **)
+
+let int_ast z0 =
+  if Z.ltb z0 Z0
+  then ANum (true, (nat_digits (Z.opp z0)))
+  else ANum (false, (nat_digits z0))
+
+(** val const_sql : expr -> (tok list * ast) option **)
+
+let const_sql = function
+| E (left, op, right, _, _) ->
+  (match left with
+   | VInt z0 ->
+     (match op with
+      | Literal ->
+        (match right with
+         | VNil -> Some ((int_toks z0), (int_ast z0))
+         | _ -> None)
+      | _ -> None)
+   | VStr s ->
+     (match op with
+      | Literal ->
+        (match right with
+         | VNil -> Some (((TStr (str s)) :: []), (AStr (str s)))
+         | _ -> None)
+      | _ -> None)
+   | _ -> None)
+
+(** val translate : char list -> char list **)
+
+let translate p =
+  replace_char '?' ('_'::[]) (replace_char '*' ('%'::[]) p)
+
+(** val plain_char : char -> bool **)
+
+let plain_char c =
+  (&&) (negb ((=) c '%')) (negb ((=) c '_'))
+
+(** val no_sql_wild : char list -> bool **)
+
+let rec no_sql_wild = function
+| [] -> true
+| c::r -> (&&) (plain_char c) (no_sql_wild r)
+
+(** val cmp_text : operator -> char list option **)
+
+let cmp_text = function
+| Equals -> Some ('='::[])
+| Greater -> Some ('>'::[])
+| Less -> Some ('<'::[])
+| GreaterEq -> Some ('>'::('='::[]))
+| LessEq -> Some ('<'::('='::[]))
+| _ -> None
+
+(** val consts_sql : expr list -> (tok list list * ast list) option **)
+
+let rec consts_sql = function
+| [] -> Some ([], [])
+| x :: r ->
+  (match const_sql x with
+   | Some p ->
+     let (t, a) = p in
+     (match consts_sql r with
+      | Some p0 -> let (ts, as_) = p0 in Some ((t :: ts), (a :: as_))
+      | None -> None)
+   | None -> None)
+
+(** val comma_join : tok list list -> tok list **)
+
+let rec comma_join = function
+| [] -> []
+| x :: r ->
+  (match r with
+   | [] -> x
+   | _ :: _ -> app x (TComma :: (comma_join r)))
+
+(** val int_bound : value -> z option **)
+
+let int_bound = function
+| VExp e ->
+  let E (left, op, right, _, _) = e in
+  (match left with
+   | VInt z0 ->
+     (match op with
+      | Literal -> (match right with
+                    | VNil -> Some z0
+                    | _ -> None)
+      | _ -> None)
+   | _ -> None)
+| _ -> None
+
+(** val tr : expr -> (tok list * ast) option **)
+
+let rec tr = function
+| E (l, op, rt, _, _) ->
+  (match op with
+   | And ->
+     (match l with
+      | VExp x ->
+        (match rt with
+         | VExp y ->
+           (match tr x with
+            | Some p ->
+              let (tx, ax) = p in
+              (match tr y with
+               | Some p0 ->
+                 let (ty, ay) = p0 in
+                 Some
+                 ((TLP :: (app tx (TRP :: ((TKw
+                            (match op with
+                             | And -> KAnd
+                             | _ -> KOr)) :: (TLP :: (app ty (TRP :: []))))))),
+                 (match op with
+                  | And -> mk_and ax ay
+                  | _ -> mk_or ax ay))
+               | None -> None)
+            | None -> None)
+         | _ -> None)
+      | _ -> None)
+   | Or ->
+     (match l with
+      | VExp x ->
+        (match rt with
+         | VExp y ->
+           (match tr x with
+            | Some p ->
+              let (tx, ax) = p in
+              (match tr y with
+               | Some p0 ->
+                 let (ty, ay) = p0 in
+                 Some
+                 ((TLP :: (app tx (TRP :: ((TKw
+                            (match op with
+                             | And -> KAnd
+                             | _ -> KOr)) :: (TLP :: (app ty (TRP :: []))))))),
+                 (match op with
+                  | And -> mk_and ax ay
+                  | _ -> mk_or ax ay))
+               | None -> None)
+            | None -> None)
+         | _ -> None)
+      | _ -> None)
+   | Equals ->
+     (match field_of l with
+      | Some f ->
+        (match rt with
+         | VExp lf ->
+           (match cmp_text op with
+            | Some o ->
+              (match const_sql lf with
+               | Some p ->
+                 let (tc, ac) = p in
+                 Some (((TIdent (str f)) :: ((TOp (str o)) :: tc)), (AOp
+                 ((str o), (ACol (str f)), ac)))
+               | None -> None)
+            | None -> None)
+         | _ -> None)
+      | None -> None)
+   | Like ->
+     (match field_of l with
+      | Some f ->
+        (match rt with
+         | VExp e0 ->
+           let E (left, op0, right, _, _) = e0 in
+           (match left with
+            | VStr p ->
+              (match op0 with
+               | Wild ->
+                 (match right with
+                  | VNil ->
+                    Some (((TIdent (str f)) :: ((TKw KSimilar) :: ((TKw
+                      KTo) :: ((TStr (str (translate p))) :: [])))),
+                      (ASimilar ((ACol (str f)), (AStr (str (translate p))))))
+                  | _ -> None)
+               | _ -> None)
+            | _ -> None)
+         | _ -> None)
+      | None -> None)
+   | Not ->
+     (match l with
+      | VExp x ->
+        (match rt with
+         | VNil ->
+           (match tr x with
+            | Some p ->
+              let (tx, ax) = p in
+              Some (((TKw KNot) :: (TLP :: (app tx (TRP :: [])))), (ANot ax))
+            | None -> None)
+         | _ -> None)
+      | _ -> None)
+   | Range ->
+     (match field_of l with
+      | Some f ->
+        (match rt with
+         | VBound (lo, hi, incl) ->
+           let c = TIdent (str f) in
+           let ge = str (if incl then '>'::('='::[]) else '>'::[]) in
+           let le = str (if incl then '<'::('='::[]) else '<'::[]) in
+           (match int_bound lo with
+            | Some a ->
+              (match int_bound hi with
+               | Some b ->
+                 Some ((c :: ((TOp
+                   ge) :: (app (int_toks a) ((TKw KAnd) :: (c :: ((TOp
+                            le) :: (int_toks b))))))), (ABool (true, ((AOp
+                   (ge, (ACol (str f)), (int_ast a))) :: ((AOp (le, (ACol
+                   (str f)), (int_ast b))) :: [])))))
+               | None ->
+                 if is_star hi
+                 then Some ((c :: ((TOp ge) :: (int_toks a))), (AOp (ge,
+                        (ACol (str f)), (int_ast a))))
+                 else None)
+            | None ->
+              (match int_bound hi with
+               | Some b ->
+                 if is_star lo
+                 then Some ((c :: ((TOp le) :: (int_toks b))), (AOp (le,
+                        (ACol (str f)), (int_ast b))))
+                 else None
+               | None -> None))
+         | _ -> None)
+      | None -> None)
+   | Must ->
+     (match l with
+      | VExp x -> (match rt with
+                   | VNil -> tr x
+                   | _ -> None)
+      | _ -> None)
+   | MustNot ->
+     (match l with
+      | VExp x ->
+        (match rt with
+         | VNil ->
+           (match tr x with
+            | Some p ->
+              let (tx, ax) = p in
+              Some (((TKw KNot) :: (TLP :: (app tx (TRP :: [])))), (ANot ax))
+            | None -> None)
+         | _ -> None)
+      | _ -> None)
+   | Greater ->
+     (match field_of l with
+      | Some f ->
+        (match rt with
+         | VExp lf ->
+           (match cmp_text op with
+            | Some o ->
+              (match const_sql lf with
+               | Some p ->
+                 let (tc, ac) = p in
+                 Some (((TIdent (str f)) :: ((TOp (str o)) :: tc)), (AOp
+                 ((str o), (ACol (str f)), ac)))
+               | None -> None)
+            | None -> None)
+         | _ -> None)
+      | None -> None)
+   | Less ->
+     (match field_of l with
+      | Some f ->
+        (match rt with
+         | VExp lf ->
+           (match cmp_text op with
+            | Some o ->
+              (match const_sql lf with
+               | Some p ->
+                 let (tc, ac) = p in
+                 Some (((TIdent (str f)) :: ((TOp (str o)) :: tc)), (AOp
+                 ((str o), (ACol (str f)), ac)))
+               | None -> None)
+            | None -> None)
+         | _ -> None)
+      | None -> None)
+   | GreaterEq ->
+     (match field_of l with
+      | Some f ->
+        (match rt with
+         | VExp lf ->
+           (match cmp_text op with
+            | Some o ->
+              (match const_sql lf with
+               | Some p ->
+                 let (tc, ac) = p in
+                 Some (((TIdent (str f)) :: ((TOp (str o)) :: tc)), (AOp
+                 ((str o), (ACol (str f)), ac)))
+               | None -> None)
+            | None -> None)
+         | _ -> None)
+      | None -> None)
+   | LessEq ->
+     (match field_of l with
+      | Some f ->
+        (match rt with
+         | VExp lf ->
+           (match cmp_text op with
+            | Some o ->
+              (match const_sql lf with
+               | Some p ->
+                 let (tc, ac) = p in
+                 Some (((TIdent (str f)) :: ((TOp (str o)) :: tc)), (AOp
+                 ((str o), (ACol (str f)), ac)))
+               | None -> None)
+            | None -> None)
+         | _ -> None)
+      | None -> None)
+   | In ->
+     (match field_of l with
+      | Some f ->
+        (match rt with
+         | VExp e0 ->
+           let E (left, op0, right, _, _) = e0 in
+           (match left with
+            | VList l0 ->
+              (match l0 with
+               | [] -> None
+               | x :: lits ->
+                 (match op0 with
+                  | List ->
+                    (match right with
+                     | VNil ->
+                       (match consts_sql (x :: lits) with
+                        | Some p ->
+                          let (ts, as_) = p in
+                          Some (((TIdent (str f)) :: ((TKw
+                          KIn) :: (TLP :: (app (comma_join ts) (TRP :: []))))),
+                          (AIn ((ACol (str f)), as_)))
+                        | None -> None)
+                     | _ -> None)
+                  | _ -> None))
+            | _ -> None)
+         | _ -> None)
+      | None -> None)
+   | _ -> None)
+
+(** val int_in_range : z -> bool **)
+
+let int_in_range z0 =
+  Z.ltb (Z.abs z0)
+    (Z.pow (Zpos (XO (XI (XO XH)))) (Zpos (XO (XI (XI (XI XH))))))
+
+(** val const_side : expr -> bool **)
+
+let const_side = function
+| E (left, _, _, _, _) ->
+  (match left with
+   | VInt z0 -> int_in_range z0
+   | _ -> true)
+
+(** val sql_meta_free : char -> bool **)
+
+let sql_meta_free c =
+  (||) ((||) (negb (similar_meta c)) ((=) c '*')) ((=) c '?')
+
+(** val meta_free : char list -> bool **)
+
+let rec meta_free = function
+| [] -> true
+| c::r -> (&&) (sql_meta_free c) (meta_free r)
+
+(** val pattern_side : char list -> bool **)
+
+let pattern_side p =
+  (&&) (no_sql_wild p) (meta_free p)
+
+(** val bound_side : value -> bool **)
+
+let bound_side = function
+| VExp lf -> const_side lf
+| _ -> true
+
+(** val side : expr -> bool **)
+
+let rec side = function
+| E (l, op, rt, _, _) ->
+  (match op with
+   | And -> (&&) (side_v l) (side_v rt)
+   | Or -> (&&) (side_v l) (side_v rt)
+   | Equals -> bound_side rt
+   | Like ->
+     (match rt with
+      | VExp e0 ->
+        let E (left, _, _, _, _) = e0 in
+        (match left with
+         | VStr p -> pattern_side p
+         | _ -> true)
+      | _ -> true)
+   | Not -> side_v l
+   | Range ->
+     (match rt with
+      | VBound (lo, hi, _) -> (&&) (bound_side lo) (bound_side hi)
+      | _ -> true)
+   | Must -> side_v l
+   | MustNot -> side_v l
+   | Greater -> bound_side rt
+   | Less -> bound_side rt
+   | GreaterEq -> bound_side rt
+   | LessEq -> bound_side rt
+   | In ->
+     (match rt with
+      | VExp e0 ->
+        let E (left, _, _, _, _) = e0 in
+        (match left with
+         | VList lits -> forallb const_side lits
+         | _ -> true)
+      | _ -> true)
+   | _ -> true)
+
+(** val side_v : value -> bool **)
+
+and side_v = function
+| VExp e -> side e
+| _ -> true
